@@ -68,6 +68,13 @@ def decl_specs(tier):
                     if sbl != 2:
                         KS = PKT('K', [('pre', I(1)), ('c', I(1)), ('d', S(node, F('c'))), ('post', I(1))], **opts)
                         specs.append({'P': KS, 'tag': '%s repeated-directly sbl=%s' % (tag, sbl)})
+                if gen and sbl is None and node['mode'] == 'size' and hdr is None:
+                    # the constant-size string as the ONLY fixed field of its neighbourhood: alone in the class, between two variable
+                    # fields, next to integers of the other byte order, last after a variable field
+                    specs.append({'P': PKT('K', [('d', node)]), 'tag': '%s alone' % tag})
+                    specs.append({'P': PKT('K', [('v', DM(b'\x00')), ('d', node), ('w', DM(b'\x00'))]), 'tag': '%s between variable fields' % tag})
+                    specs.append({'P': PKT('K', [('pre', I(2)), ('d', node), ('post', I(2))], endianness='little'), 'tag': '%s little-endian class' % tag})
+                    specs.append({'P': PKT('K', [('v', DM(b'\x00')), ('d', node)]), 'tag': '%s last after a variable field' % tag})
                 if gen and node['mode'] != 'eos' and '$' not in tag and sbl in (None, 3):
                     W = PKT('W', [('c', I(1)), ('items', S(R(K), F('c')))])
                     specs.append({'P': W, 'tag': '%s sbl=%s repeated' % (tag, sbl)})
